@@ -2098,3 +2098,21 @@ mod tests {
         );
     }
 }
+
+/// Verification-only raw mutators (fault injection). Compiled only with `verif-hooks`.
+#[cfg(feature = "verif-hooks")]
+#[doc(hidden)]
+impl<T, U, const D: usize> Vertex<T, U, D>
+where
+    U: DataType,
+{
+    /// Overwrite the point without validation.
+    pub fn verif_set_point(&mut self, point: Point<T, D>) {
+        self.point = point;
+    }
+
+    /// Overwrite the UUID without validation.
+    pub fn verif_set_uuid_raw(&mut self, uuid: Uuid) {
+        self.uuid = uuid;
+    }
+}
